@@ -5,6 +5,7 @@
 import Fx.Eval
 import Fx.Lemmas.Advance
 import Fx.Lemmas.Leaves
+import Fx.Lemmas.Sound
 namespace Fx.C08
 open Fx
 
@@ -45,5 +46,16 @@ theorem C08_leaf_meaning (c : Cur) (off : Nat) (bs : List Byte) :
 /-- non-vacuity: a struct holding a counted opaque, decoded from a view that starts at offset 7 -/
 example : (Val.struct "s" ["o"] (.cons (.bytes 11 [1, 2]) .nil)).LeavesIn ⟨7, be32 2 ++ [1, 2, 0, 0], []⟩ := by
   simp [Val.LeavesIn, Vals.LeavesIn, leafIn, Cur.remaining, be32]
+
+/-- **C08 at the level of the specification**: for every supported specification, declared type and EVERY accepted byte string,
+    the result is the documented value of a well-typed `x` *as laid out from the cursor's offset* — `reprNamed` places every
+    opaque leaf at the offset the RFC 4506 encoding of `x` assigns to its bytes (counts, discriminants, markers and padding
+    before it included) — and each such leaf is the window of the input at that very offset. -/
+theorem C08_leaves_at_wire_offsets (a : Ast) (m : Module) (hs : Supported a = true) (hg : generateModule a = .ok m)
+    (n : String) (hn : declared a n = true) (fuel : Nat) (c : Cur) (v : Val) (c' : Cur)
+    (h : evalImpl a m.plans fuel n c = .ok v c') :
+    (∃ x, hasTypeNamed a n x = true ∧ v = reprNamed a n c.off x) ∧ v.LeavesIn c := by
+  obtain ⟨x, hx, hv, _⟩ := decode_sound hs hg n hn fuel c v c' h
+  exact ⟨⟨x, hx, hv⟩, C08_views a m.plans fuel n c v c' h⟩
 
 end Fx.C08
